@@ -88,3 +88,24 @@ pub fn gen_duration(rng: &mut Rng) -> std::time::Duration {
     let ns = (*rng.pick(magnitudes()) + jitter(rng)).max(0);
     std::time::Duration::new((ns / NS) as u64, (ns % NS) as u32)
 }
+
+/// A value related to `i` by one "natural" key component: the same instant, the same time of day on another day,
+/// the same day at another time, a power-of-two number of units / one year / one 400-year cycle away.  Used for call
+/// sequences (A, then a sibling of A, then A again): what a cache with a partial, truncated or aliased key confuses.
+pub fn sibling_instant(rng: &mut Rng, i: i128, lo: i128, hi: i128) -> i128 {
+    let tod = i.rem_euclid(D);
+    let day = i - tod;
+    let j = match rng.below(8) {
+        0 => i,
+        1 => day + rng.range_i128(0, D - 1),
+        2 => (day + *rng.pick(&[D, -D, 7 * D, -7 * D, 365 * D, 366 * D, -365 * D, 146_097 * D, -146_097 * D]) * rng.range_i128(1, 3)) + tod,
+        3 | 4 => {
+            let u = *rng.pick(&UNITS_NS);
+            i + *rng.pick(&[1i128, -1]) * u.saturating_mul(rng.range_i128(1, 3) << rng.range_i128(4, 40).min(62) as u32).min(hi - lo)
+        }
+        5 => i + *rng.pick(&[1i128, -1, NS, -NS, 1_000, -1_000_000]),
+        6 => -i - 1,
+        _ => i + rng.range_i128(-400 * D, 400 * D),
+    };
+    j.clamp(lo, hi)
+}
